@@ -73,6 +73,35 @@ theorem frob_orth (m n D : Nat) (U V : Nat → Nat → 𝕜) (c : Nat → 𝕜) 
     rw [star_mul', hc p]; ring
   rw [sum_congr rfl h2, ← mul_sum, hV p (mem_range.1 hp), mul_one]
 
+/-- `(Uᴴ · (U diag(c) V) · Vᴴ)[p₀, p₀] = c p₀` for orthonormal columns of `U` and orthonormal rows of `V` -/
+theorem diag_extract (m n D : Nat) (U V : Nat → Nat → 𝕜) (c : Nat → 𝕜)
+    (hU : ∀ p p', p < D → p' < D → ∑ i ∈ range m, star (U i p) * U i p' = if p = p' then 1 else 0)
+    (hV : ∀ p p', p < D → p' < D → ∑ j ∈ range n, V p j * star (V p' j) = if p = p' then 1 else 0)
+    {p0 : Nat} (hp0 : p0 < D) :
+    ∑ i ∈ range m, ∑ j ∈ range n, star (U i p0) * (∑ p ∈ range D, U i p * c p * V p j) * star (V p0 j) = c p0 := by
+  have h1 : ∀ i j, star (U i p0) * (∑ p ∈ range D, U i p * c p * V p j) * star (V p0 j) =
+      ∑ p ∈ range D, c p * (star (U i p0) * U i p) * (V p j * star (V p0 j)) := by
+    intro i j
+    rw [mul_sum, sum_mul]
+    apply sum_congr rfl; intro p _; ring
+  simp only [h1]
+  have h2 : ∀ i ∈ range m, ∑ j ∈ range n, ∑ p ∈ range D, c p * (star (U i p0) * U i p) * (V p j * star (V p0 j)) =
+      c p0 * (star (U i p0) * U i p0) := by
+    intro i _
+    rw [sum_comm]
+    have h3 : ∀ p ∈ range D, ∑ j ∈ range n, c p * (star (U i p0) * U i p) * (V p j * star (V p0 j)) =
+        if p = p0 then c p0 * (star (U i p0) * U i p0) else 0 := by
+      intro p hp
+      rw [← mul_sum, hV p p0 (mem_range.1 hp) hp0]
+      by_cases h : p = p0
+      · subst h; simp
+      · simp [h]
+    rw [sum_congr rfl h3, sum_eq_single p0]
+    · simp
+    · intro b _ hb; simp [hb]
+    · intro h; exact absurd (mem_range.2 hp0) h
+  rw [sum_congr rfl h2, ← mul_sum, hU p0 p0 hp0 hp0, if_pos rfl, mul_one]
+
 end gram
 
 /-! ### the run with a shared charge -/
@@ -238,21 +267,85 @@ theorem error_nonempty (ι : ρ →+* 𝕜) (hι : ∀ x, star (ι x) = ι x) (h
     rw [if_pos rfl] at this
     exact this
 
+/-- the untruncated `U` (original row order) has orthonormal columns -/
+theorem fullU_iso (hshape : SvdShape dsvd A q0 q1) (hisoU : SvdIsoU dsvd A q0 q1) (H : QRInput A q0 q1)
+    {p p' : Nat} (hp : p < (spectrum dsvd A q0 q1).length) (hp' : p' < (spectrum dsvd A q0 q1).length) :
+    ∑ i ∈ range A.m, star (fullU dsvd A q0 q1 i p) * fullU dsvd A q0 q1 i p' = if p = p' then 1 else 0 := by
+  have hI := svdLoopState_inv hshape H.hq0 H.hq1
+  have hJU := svdLoopState_isoU hshape hisoU H.hq0 H.hq1
+  obtain ⟨-, -, sm, sn, -⟩ := srt_spec A q0 q1 H.hq0 H.hq1
+  have hp0 := stableArgsort_permInv q0
+  rw [H.hq0] at hp0
+  rw [spectrum, hI.slen] at hp hp'
+  unfold fullU
+  rw [hp0.sum_comp (fun k => star ((svdLoopState dsvd A q0 q1).u.f k p) * (svdLoopState dsvd A q0 q1).u.f k p'), ← sm]
+  exact hJU p p' hp hp'
+
+/-- the untruncated `V` (original column order) has orthonormal rows -/
+theorem fullV_iso (hshape : SvdShape dsvd A q0 q1) (hisoV : SvdIsoV dsvd A q0 q1) (H : QRInput A q0 q1)
+    {p p' : Nat} (hp : p < (spectrum dsvd A q0 q1).length) (hp' : p' < (spectrum dsvd A q0 q1).length) :
+    ∑ j ∈ range A.n, fullV dsvd A q0 q1 p j * star (fullV dsvd A q0 q1 p' j) = if p = p' then 1 else 0 := by
+  have hI := svdLoopState_inv hshape H.hq0 H.hq1
+  have hJV := svdLoopState_isoV hshape hisoV H.hq0 H.hq1
+  obtain ⟨-, -, sm, sn, -⟩ := srt_spec A q0 q1 H.hq0 H.hq1
+  have hp1 := stableArgsort_permInv q1
+  rw [H.hq1] at hp1
+  rw [spectrum, hI.slen] at hp hp'
+  unfold fullV
+  rw [hp1.sum_comp (fun k => (svdLoopState dsvd A q0 q1).v.f p k * star ((svdLoopState dsvd A q0 q1).v.f p' k)), ← sn]
+  exact hJV p p' hp hp'
+
+/-- under the kernel contract the concatenated spectrum of a zero matrix vanishes (in `𝕜`) -/
+theorem spectrum_zero_of_zero (ι : ρ →+* 𝕜) (hshape : SvdShape dsvd A q0 q1)
+    (hprod : SvdProduct ι dsvd A q0 q1) (hisoU : SvdIsoU dsvd A q0 q1) (hisoV : SvdIsoV dsvd A q0 q1)
+    (H : QRInput A q0 q1) (hz : ¬ AnyNZ A) {p : Nat} (hp : p < (spectrum dsvd A q0 q1).length) :
+    ι ((spectrum dsvd A q0 q1).getD p 0) = 0 := by
+  have hA := (not_anyNZ_iff A).1 hz
+  have h := diag_extract A.m A.n (spectrum dsvd A q0 q1).length (fullU dsvd A q0 q1) (fullV dsvd A q0 q1)
+    (fun p => ι ((spectrum dsvd A q0 q1).getD p 0))
+    (fun p p' hp hp' => fullU_iso hshape hisoU H hp hp') (fun p p' hp hp' => fullV_iso hshape hisoV H hp hp') hp
+  rw [← h]
+  apply sum_eq_zero
+  intro i hi
+  apply sum_eq_zero
+  intro j hj
+  rw [full_expansion ι hshape hprod H (mem_range.1 hi) (mem_range.1 hj), hA i j (mem_range.1 hi) (mem_range.1 hj),
+    mul_zero, zero_mul]
+
 end err
+
+/-- under the product clause the concatenated spectrum of a non-zero matrix is not all zero -/
+theorem spectrum_ne_zero_of_anyNZ (ι : ρ →+* 𝕜) (hshape : SvdShape dsvd A q0 q1) (hprod : SvdProduct ι dsvd A q0 q1)
+    (H : QRInput A q0 q1) (hnz : AnyNZ A) : ¬ ∀ x ∈ spectrum dsvd A q0 q1, x = 0 := by
+  intro hall
+  obtain ⟨i, j, hi, hj, hne⟩ := hnz
+  apply hne
+  rw [← full_expansion ι hshape hprod H hi hj]
+  apply sum_eq_zero
+  intro p hp
+  have : (spectrum dsvd A q0 q1).getD p 0 = 0 :=
+    hall _ (by simp [List.getD_eq_getElem?_getD, mem_range.1 hp])
+  rw [this, map_zero, mul_zero, zero_mul]
+
 /-! ### both branches -/
 
 theorem spectrum_disjoint (dsvd : Mat 𝕜 → Mat 𝕜 × List ρ × Mat 𝕜) (A : Mat 𝕜) (q0 q1 : List Int)
     (he : intersect1d q0 q1 = []) : spectrum dsvd A q0 q1 = [] := by
   rw [spectrum_eq, blocks, he]; rfl
 
-theorem triple_disjoint (ι : ρ →+* 𝕜) (H : QRInput A q0 q1) (he : intersect1d q0 q1 = []) {i j : Nat}
+theorem triple_zero (ι : ρ →+* 𝕜) (hz : ¬ AnyNZ A) {i j : Nat}
     (hi : i < A.m) (hj : j < A.n) :
     tripleF ι (e0 A.m) ([0] : List ρ) (Mat.zero 1 A.n) i j = A.f i j := by
-  rw [all_zero_of_disjoint H he i j hi hj]
+  rw [(not_anyNZ_iff A).1 hz i j hi hj]
   unfold tripleF
   apply sum_eq_zero
   intro t _
   rw [Mat.zero_f, mul_zero]
+
+theorem triple_disjoint (ι : ρ →+* 𝕜) (H : QRInput A q0 q1) (he : intersect1d q0 q1 = []) {i j : Nat}
+    (hi : i < A.m) (hj : j < A.n) :
+    tripleF ι (e0 A.m) ([0] : List ρ) (Mat.zero 1 A.n) i j = A.f i j :=
+  triple_zero ι (not_anyNZ_of_disjoint H he) hi hj
 
 /-- if all discarded singular values vanish (e.g. nothing is discarded) the returned factors reproduce `A` -/
 theorem reconstruct' (ι : ρ →+* 𝕜) (hshape : SvdShape dsvd A q0 q1) (hprod : SvdProduct ι dsvd A q0 q1)
@@ -261,14 +354,15 @@ theorem reconstruct' (ι : ρ →+* 𝕜) (hshape : SvdShape dsvd A q0 q1) (hpro
     (hdisc : ∀ p, p < (spectrum dsvd A q0 q1).length →
       p ∉ retainedBondIndices dnorm dargsort (spectrum dsvd A q0 q1) tol → (spectrum dsvd A q0 q1).getD p 0 = 0)
     {i j : Nat} (hi : i < A.m) (hj : j < A.n) : tripleF ι u s v i j = A.f i j := by
-  rcases split_run_cases dnorm dargsort tol hshape H hrun with ⟨he, rfl, rfl, rfl, rfl⟩ | ⟨-, rfl, rfl, rfl, rfl⟩
-  · exact triple_disjoint ι H he hi hj
+  rcases split_run_cases dnorm dargsort tol hshape H hrun with ⟨hz, rfl, rfl, rfl, rfl⟩ | ⟨-, rfl, rfl, rfl, rfl⟩
+  · exact triple_zero ι hz hi hj
   · exact reconstruct_nonempty dnorm dargsort tol ι hshape hprod H hdisc hi hj
 
 section err2
 variable [StarRing 𝕜]
 
-/-- truncation error identity, both branches -/
+/-- truncation error identity, both branches (for a zero matrix both sides vanish: the returned product is zero and,
+under the kernel contract, so is the whole spectrum) -/
 theorem error_identity' (ι : ρ →+* 𝕜) (hι : ∀ x, star (ι x) = ι x) (hshape : SvdShape dsvd A q0 q1)
     (hprod : SvdProduct ι dsvd A q0 q1) (hisoU : SvdIsoU dsvd A q0 q1) (hisoV : SvdIsoV dsvd A q0 q1)
     (H : QRInput A q0 q1) {u v : Mat 𝕜} {s : List ρ} {q : List Int}
@@ -278,14 +372,19 @@ theorem error_identity' (ι : ρ →+* 𝕜) (hι : ∀ x, star (ι x) = ι x) (
       ∑ p ∈ range (spectrum dsvd A q0 q1).length,
         if p ∈ retainedBondIndices dnorm dargsort (spectrum dsvd A q0 q1) tol then 0
         else ι ((spectrum dsvd A q0 q1).getD p 0) * ι ((spectrum dsvd A q0 q1).getD p 0) := by
-  rcases split_run_cases dnorm dargsort tol hshape H hrun with ⟨he, rfl, rfl, rfl, rfl⟩ | ⟨-, rfl, rfl, rfl, rfl⟩
-  · rw [spectrum_disjoint dsvd A q0 q1 he]
-    simp only [List.length_nil, range_zero, sum_empty]
+  rcases split_run_cases dnorm dargsort tol hshape H hrun with ⟨hz, rfl, rfl, rfl, rfl⟩ | ⟨-, rfl, rfl, rfl, rfl⟩
+  · have hR : ∑ p ∈ range (spectrum dsvd A q0 q1).length,
+        (if p ∈ retainedBondIndices dnorm dargsort (spectrum dsvd A q0 q1) tol then (0 : 𝕜)
+        else ι ((spectrum dsvd A q0 q1).getD p 0) * ι ((spectrum dsvd A q0 q1).getD p 0)) = 0 := by
+      apply sum_eq_zero
+      intro p hp
+      rw [spectrum_zero_of_zero ι hshape hprod hisoU hisoV H hz (mem_range.1 hp), mul_zero, ite_self]
+    rw [hR]
     apply sum_eq_zero
     intro i hi
     apply sum_eq_zero
     intro j hj
-    rw [triple_disjoint ι H he (mem_range.1 hi) (mem_range.1 hj), sub_self, mul_zero]
+    rw [triple_zero ι hz (mem_range.1 hi) (mem_range.1 hj), sub_self, mul_zero]
   · exact error_nonempty dnorm dargsort tol ι hι hshape hprod hisoU hisoV H
 
 end err2
